@@ -141,6 +141,41 @@ def run(chk):
                       {"header": b[0], "payload": b[1], "seq": b[2], "detail": [str(x) for x in b[3:]]},
                       key="frame:len%d" % (len(b[1]) // 2 if b[1] != "-" else 0))
 
+    # ---------------- fragments the host constructs: stamped as send() does, decoded by the independent decoder
+    from props import c09
+    fbad = None
+    totals = list(range(244, 256)) + [490, 491, 494, 495, 496, 497, 498, 741, 742, 743, 744, 745] + \
+        [rng.randrange(248, 1300) for _ in range(60 if thorough else 15)]
+    for total in totals:
+        h = rand_header(rng)
+        d = bytes(rng.randrange(256) for _ in range(total - 4))
+        try:
+            frs = c09.impl_fragments(h, d)
+        except Exception as e:  # noqa
+            fbad = (h, hexs(d), total, "handle_tx_fragmentation raised %s" % type(e).__name__)
+            break
+        seq = rng.randrange(4)
+        log = []
+        proto, _ = make_proto(log, pack_seq=seq)
+        wire = [proto._ll_checksum(proto._set_frame_flag(f)).serialize() for f in frs]
+        outs = model.batch(["specdec %s" % hexs(b) for b in wire])
+        chk.note_case(("frag", total, h), nontrivial=len(frs) > 1)
+        chk.count("fragmented_messages")
+        for i, (b, o) in enumerate(zip(wire, outs)):
+            if o == "NONE" or not o.endswith(" 0"):
+                fbad = (h, hexs(d), total, "fragment %d/%d is not a well-formed frame consumed exactly: %s -> %s" % (i + 1, len(wire), hexs(b)[:40], o))
+                break
+            size, fl = int(o[2:].split(",")[0]), int(o[2:].split(",")[1])
+            if size != len(b) - 2 or (fl >> 2) & 3 != seq:
+                fbad = (h, hexs(d), total, "fragment %d/%d: length field %d but %d bytes follow the marker (seq %d)" % (i + 1, len(wire), size, len(b) - 2, (fl >> 2) & 3))
+                break
+        if fbad:
+            break
+    chk.oblige("monitor:spec-decoder-on-impl-fragments", fbad is None, repr(fbad)[:300] if fbad else "")
+    if fbad:
+        chk.violation("fragment built by the host is not well-formed: message of %d bytes: %s" % (fbad[2], fbad[3]),
+                      {"header": fbad[0], "payload": fbad[1], "total": fbad[2], "why": fbad[3]}, key="fragment:residue=%d" % (fbad[2] % 247))
+
     # ---------------- acknowledgements: all (seq, retransmit)
     bad = None
     lines = ["ack %d %d" % (q, r) for q in range(4) for r in range(2)]
